@@ -258,6 +258,8 @@ class MCMCProp(Prop):
         if i % 2 == 1:
             c["node_order"] = [v for v, _ in c["jd"]]
             rng.shuffle(c["node_order"])   # a vertex's id is not its position in G.nodes()
+        if i % 7 == 5:
+            c["retarget"] = True
         if i % 4 == 2:
             c["warm_rewire"] = True
         return c
@@ -278,6 +280,8 @@ class MCMCProp(Prop):
         if i % 2 == 1:
             c["node_order"] = [v for v, _ in c["jd"]]
             rng.shuffle(c["node_order"])
+        if i % 3 == 1:
+            c["retarget"] = True
         return c
 
     # ------------------------------------------------------------------ instrumented run
@@ -338,8 +342,17 @@ class MCMCProp(Prop):
             rec["r"] = rs(budget["last_r"]) if budget["last_r"] is not None else "0"
             return res
         obs = {"exhausted": False, "ctor_exc": None}
+        if case.get("retarget"):
+            # the sampler is built with another target (every pairing allowed) and is given the real one through its public
+            # `ejks` attribute before rewiring: the target in force is the one it holds when rewire() is called
+            halves = {nm: sorted({tuple(k[:len(k) // 2]) for k, _ in tab} | {tuple(k[len(k) // 2:]) for k, _ in tab})
+                      for nm, tab in case["target"]}
+            decoy = {nm: {a + b: Ex(1) for a in hs for b in hs} for nm, hs in halves.items()}
+            params[TN.EJKS] = JointExcessJointDegreeMatrices({TN.EJKS: decoy, TN.EDGE_NAMES: list(case["names"])})
         try:
             mc = mod.MarkovChainMonteCarloRewiring(params)
+            if case.get("retarget"):
+                mc.ejks = M
         except Exception as e:
             return {"exc": type(e).__name__, "msg": "constructor: " + str(e)[:200], "where": []}
         obs["limits_used"] = [mc.convergence_limit if isinstance(mc.convergence_limit, int) else repr(mc.convergence_limit), mc.search_limit]
